@@ -71,11 +71,7 @@ Print Assumptions shape_contract_Polygon_needs_validity.
       arithmetic, no hypothesis. *)
 Theorem locate_spec_point : forall cells target k, cells_ok cells ->
   (locate_point cells target = Some k <-> 0 <= k < lenZ cells /\ in_cell (nthZ cells k 0) target).
-Proof.
-  intros cells t k Hok. split.
-  - apply locate_point_sound; assumption.
-  - intros (Hk & Hin). apply locate_point_complete; assumption.
-Qed.
+Proof. exact locate_point_iff. Qed.
 Print Assumptions locate_spec_point.
 
 (** LocateCellID returns the documented relation: Indexed k - cell k contains the target;
@@ -167,8 +163,5 @@ Theorem crossing_candidates_sorted_union : forall (idx : index) visited sid,
   increasing (crossing_candidates idx visited sid) /\
   forall e, In e (crossing_candidates idx visited sid) <->
             exists pos cl, In pos visited /\ find_by_shape (snd (nth_cell idx pos)) sid = Some cl /\ In e (cl_edges cl).
-Proof.
-  intros idx visited sid H. split; [apply crossing_candidates_increasing; exact H|].
-  intros e. apply crossing_candidates_In.
-Qed.
+Proof. exact crossing_candidates_spec. Qed.
 Print Assumptions crossing_candidates_sorted_union.
